@@ -71,12 +71,29 @@ def expected_params(segments):
 SAFE_WORDS = ["a", "Song", "x y", "0.000=120.000", "dance-single", "Hard", "12", "a#b", "=", ",", "0000", "1001",
               "猫", "é", "テスト", "é", "*", "x.png", "gfx/bn.png", "\t", " "]
 KEYS_SM = ["TITLE", "ARTIST", "title", "Artist", "OFFSET", "BPMS", "bpms", "STOPS", "FREEZES", "ATTACKS", "attacks",
-           "DISPLAYBPM", "DisplayBpm", "BGCHANGES", "ANIMATIONS", "FOO", "foo", "X", "SELECTABLE", "MUSIC", "Banner", "VERSION", "version"]
+           "DISPLAYBPM", "DisplayBpm", "BGCHANGES", "ANIMATIONS", "FOO", "foo", "X", "SELECTABLE", "MUSIC", "Banner", "VERSION", "version",
+           # letters whose upper-case form is an ASCII letter although casefold()/lower() never give one (dotless i, long s)
+           "T\u0131tle", "d\u0131\u017fplaybpm", "attack\u017f", "VERS\u0131ON", "VERSIONS", "VERSION2", "NOTES3", "NOTEDATA2", "VERSION ", "NOTE"]
 KEYS_SSC_CHART = ["CHARTNAME", "STEPSTYPE", "stepstype", "DESCRIPTION", "DIFFICULTY", "METER", "meter", "RADARVALUES",
-                  "CREDIT", "BPMS", "OFFSET", "DISPLAYBPM", "displaybpm", "ATTACKS", "FOO", "foo", "MUSIC", "LABELS"]
+                  "CREDIT", "BPMS", "OFFSET", "DISPLAYBPM", "displaybpm", "ATTACKS", "FOO", "foo", "MUSIC", "LABELS",
+                  "d\u0131\u017fplaybpm", "attack\u017f", "NOTES3", "NOTEDATA2", "NOTE", "\u017ftepstype"]
+
+
+def long_with_token(rng, filler="0000\n"):
+    """A long component whose value has a metacharacter token on / next to index 4096*k of the value (block boundaries of
+    chunked writers and readers); never '///' and never a '#' after a line break."""
+    boundary = rng.choice([4096, 4096, 8192, 8192, 12288, 16384])
+    token = rng.choice(["//", "//", "//", "\\", ":", ";", "\\\\", "// c"])
+    start = boundary - 1 + rng.choice([-2, -1, -1, -1, 0, 0, 1])
+    body = (filler * (start // len(filler) + 1))[:start]
+    if body.endswith("/"):
+        body = body[:-1] + "0"
+    return body + token + rng.choice(["", "0", " tail\n0000\n", "\n0001\n"])
 
 
 def rcomp(rng, multiline=True):
+    if multiline and rng.random() < 0.015:
+        return long_with_token(rng, rng.choice(["0000\n", "y", "ab \n"]))
     n = rng.choice([0, 1, 1, 2, 3])
     parts = []
     for _ in range(n):
@@ -161,7 +178,7 @@ def gen_sm_segments(rng):
     for _ in range(n):
         key = rkey(rng, KEYS_SM)
         if rng.random() < 0.12:
-            key = rng.choice(["NOTES", "notes", "Notes"])
+            key = rng.choice(["NOTES", "notes", "Notes", "note\u017f"])
             nc = rng.choice([6, 6, 6, 7, 9, 5, 1, 0])
             p = rparam(rng, key, ncomps=nc)
             if nc >= 6 and rng.random() < 0.7:
@@ -183,7 +200,7 @@ def gen_sm_segments(rng):
 def gen_ssc_segments(rng, chart_only=False):
     segs = []
     if not chart_only:
-        ver = rng.choice(["VERSION", "VERSION", "version", "Version", "VeRsIoN"])
+        ver = rng.choice(["VERSION", "VERSION", "version", "Version", "VeRsIoN", "VERS\u0131ON", "vers\u0131on", "VER\u017fION"])
         r = rng.random()
         if r < 0.1:
             # the same key spelled with a (needless) escape inside: it still tokenizes to VERSION
@@ -199,11 +216,19 @@ def gen_ssc_segments(rng, chart_only=False):
         segs.append(["param", rng.choice(["NOTEDATA", "NOTEDATA", "notedata", "NoteData"]), rng.choice([[""], [""], [], ["x"]]), ";"])
         items = [rparam(rng, rkey(rng, KEYS_SSC_CHART)) for _ in range(rng.choice([0, 1, 3, 6]))]
         if rng.random() < 0.9:
-            nk = rng.choice(["NOTES", "NOTES", "notes", "NOTES2", "Notes2"])
+            nk = rng.choice(["NOTES", "NOTES", "notes", "NOTES2", "Notes2", "note\u017f"])
             notes = ["param", nk, [rng.choice(["\n0000\n0000\n0000\n0000\n", "", "0", "\n0001\n,\n1000\n", "00\\00\n", "\n0000\n\\"])], ";"]
-            if rng.random() < 0.12:
+            if rng.random() < 0.08:
+                notes[2] = [long_with_token(rng)]
+            key_only = rng.random() < 0.15
+            if key_only:
                 notes[2] = []  # key-only note data parameter: '#NOTES;' 
-            items.insert(rng.randint(0, len(items)) if rng.random() < 0.3 else len(items), notes)
+                if not items or rng.random() < 0.5:
+                    items.append(rparam(rng, rkey(rng, KEYS_SSC_CHART)))
+            if key_only and rng.random() < 0.7:
+                items.insert(rng.randint(0, len(items) - 1), notes)  # ... followed by more parameters
+            else:
+                items.insert(rng.randint(0, len(items)) if rng.random() < 0.3 else len(items), notes)
         segs.extend(items)
     return segs
 
